@@ -121,6 +121,8 @@ func lastStore(p *dtPath, suffix string) (string, bool) {
 func q(s string) string { return constant.MakeString(s).ExactString() }
 
 func runC09(c *Ctx, r *Report) {
+	r.Rule("C09/password-prompt-anchored", "the built-in pattern that decides when the login password is typed matches only where the prompt ends a line", 1)
+	checkPasswordPromptAnchored(c, r, "C09/password-prompt-anchored")
 	importFoundation(c, r, "C09", "netconf-framing")
 	importFoundation(c, r, "C09", "read-loop")
 	r.Rule("C09/cleanup-keeps-error", "the deferred clean-up of Open closes the channel without replacing the error being returned", 1)
